@@ -51,9 +51,16 @@ class Scenario:
     def user(self):
         cfg = self.cfg
         res = self.res
+        pk = dict(cfg.get('pool', {}))
+        if cfg.get('slow_process_up'):
+            # an embedder's on_process_up callback that takes a while (it
+            # registers the new worker's descriptors with an event loop, say)
+            def on_process_up(w, d=float(cfg['slow_process_up'])):
+                import time
+                time.sleep(d)
+            pk['on_process_up'] = on_process_up
         pool = bp.Pool(cfg.get('procs', 2), context=vproc.VPoolContext(),
-                       threads=cfg.get('threads', True),
-                       **cfg.get('pool', {}))
+                       threads=cfg.get('threads', True), **pk)
         self.pool = pool
         handles = []
         res['handles'] = handles
